@@ -381,4 +381,5 @@ def build(rng, kind, nin=1, pos=0, ht=1, mutate=None, annex=None, enc=None, wn=3
     if mutate == "locktime": tx.locktime += 1
     if mutate == "extraitem" and kind in ("p2wpkh", "p2sh-p2wpkh"): tx.wit[pos] = [b"\x01"] + tx.wit[pos]
     if mutate == "missingitem" and kind in ("p2wsh", "p2sh-p2wsh"): tx.wit[pos] = tx.wit[pos][1:]
-    return {"spend": tx.raw().hex(), "fund": fund.raw().hex(), "valid": valid, "kind": kind, "note": note, "mutate": mutate, "ht": ht, "pos": pos, "nin": nin, "finding": finding if valid else None, "needs_off": needs_off, "enc": enc}
+    return {"spend": tx.raw().hex(), "fund": fund.raw().hex(), "valid": valid, "kind": kind, "note": note, "mutate": mutate, "ht": ht, "pos": pos, "nin": nin, "finding": finding if valid else None, "needs_off": needs_off, "enc": enc,
+            "wit": [w.hex() for w in tx.wit[pos]], "scriptsig": tx.vin[pos][2].hex(), "spk": fund.vout[tx.vin[pos][1]][1].hex()}
